@@ -99,12 +99,22 @@ def fld(x, s=False):
     return "x" + x if s else str(x)
 
 
+def msg_line(m):
+    return "\t".join([fld(m["ph"], True), fld(m["cl"], True), fld(m["tmo"]), fld(m["op"]),
+                      fld(m["dst"]), fld(m["src"]), fld(m["proto"])])
+
+
+def run_script(binary, mode, lines):
+    p = subprocess.run([binary, mode], input="\n".join(lines) + "\n", stdout=subprocess.PIPE, stderr=subprocess.PIPE,
+                       text=True, timeout=600)
+    if p.returncode != 0:
+        return None, (p.stderr or "")[-500:]
+    return [json.loads(l) for l in p.stdout.splitlines() if l.strip()], ""
+
+
 def run_detector(binary, msgs):
     """msgs: dicts with ph/cl (hex of text or None), tmo (str|None), op, dst, src, proto"""
-    lines = []
-    for m in msgs:
-        lines.append("\t".join([fld(m["ph"], True), fld(m["cl"], True), fld(m["tmo"]), fld(m["op"]),
-                                fld(m["dst"]), fld(m["src"]), fld(m["proto"])]))
+    lines = [msg_line(m) for m in msgs]
     p = subprocess.run([binary], input="\n".join(lines) + "\n", stdout=subprocess.PIPE, stderr=subprocess.PIPE,
                        text=True, timeout=600)
     outs = [json.loads(l) for l in p.stdout.splitlines() if l.strip()]
@@ -478,6 +488,153 @@ def search_failing_input(ctx, binary, bases):
     ctx.cov["search"] = {"neighbours_run": len(cand), "bases": len(bases), "failing_inputs_found": len(ctx.failures) - before}
 
 
+EV = {"M": "EMsg", "A": "EAdd", "P": "EPacket", "Q": "EQuery"}
+
+
+def gen_histories(ctx, pool, pairs):
+    """timed scripts for one real SessionTracker.  pool: [(msg, det)] of real published / arbitrary messages,
+    pairs: [(new, update)] announcements of one registration each.  Returns a list of histories, each a list of
+    (time, cmd, (msg, det) | None), plus for the lifetime scenarios the expected answers of the lookups."""
+    rng = ctx.rng
+    quick = ctx.tier == "quick"
+    hs = []
+    # lifetime scenarios: the property's own statement, checked directly on the real tracker
+    for (n, u) in pairs[:(10 if quick else 120)]:
+        t0 = NOW + rng.randrange(10 ** 9)
+        t1 = t0 + rng.randrange(1, UNUSED_NS)           # first use, while still accepted
+        other = rng.choice(pool)
+        h = [(t0, "M", n, None), (t0, "Q", n, True),
+             (t0 + UNUSED_NS // 2, "S", None, None), (t0 + UNUSED_NS // 2, "M", other, None),
+             (t0 + UNUSED_NS - 1, "S", None, None), (t0 + UNUSED_NS - 1, "Q", n, True),
+             (t0 + UNUSED_NS, "S", None, None), (t0 + UNUSED_NS, "Q", n, False),
+             # again, this time used before it expires
+             (t0 + UNUSED_NS + 5, "M", n, None), (t0 + UNUSED_NS + 5 + (t1 - t0), "M", u, None),
+             # a packet of the flow and a later New for the same key must not shorten what Update asked for
+             (t0 + UNUSED_NS + 5 + (t1 - t0) + 1, "P", n, None), (t0 + UNUSED_NS + 5 + (t1 - t0) + 2, "M", n, None),
+             (t0 + 2 * UNUSED_NS + 10, "S", None, None), (t0 + 2 * UNUSED_NS + 10, "Q", u, True),
+             (t1 + UNUSED_NS + 5 + ACTIVE_NS - 1, "S", None, None), (t1 + UNUSED_NS + 5 + ACTIVE_NS - 1, "Q", n, True),
+             (t1 + UNUSED_NS + 5 + ACTIVE_NS, "S", None, None), (t1 + UNUSED_NS + 5 + ACTIVE_NS, "Q", n, False)]
+        hs.append(("lifetime", h))
+    # random histories
+    clear = ({"ph": None, "cl": None, "tmo": None, "op": 3, "dst": None, "src": None, "proto": None}, None)
+    for _ in range(14 if quick else 200):
+        t = NOW + rng.randrange(10 ** 6)
+        marks = []
+        regs = [rng.choice(pool) for _ in range(rng.randrange(2, 6))] + [x for pr in rng.sample(pairs, min(2, len(pairs))) for x in pr]
+        h = []
+        for _ in range(rng.randrange(10, 45 if quick else 70)):
+            later = [m for m in marks if m >= t]
+            if later and rng.random() < 0.45:
+                t = rng.choice(later)
+            else:
+                t += rng.choice([0, 0, 1, 10 ** 9, 60 * 10 ** 9, 180 * 10 ** 9, 300 * 10 ** 9, UNUSED_NS, ACTIVE_NS // 3, rng.randrange(ACTIVE_NS)])
+            k = rng.choice("MMMMAPPQQSSS")
+            if k == "S":
+                h.append((t, "S", None, None))
+                continue
+            m = clear if (k == "M" and rng.random() < 0.04) else rng.choice(regs)
+            h.append((t, k, m, None))
+            tm = int(m[0]["tmo"] or 0)
+            for x in (tm, 300 * 10 ** 9):
+                marks += [t + x - 1, t + x, t + x + 1]
+        hs.append(("random", h))
+    return hs
+
+
+def run_histories(ctx, binary, hs, classify):
+    """classify(msg) -> det (the real Rust conversion of that message, for its text classes)"""
+    lines = []
+    for _, h in hs:
+        lines.append("R")
+        for (t, k, m, _) in h:
+            lines.append("T %d" % t)
+            lines.append(k if m is None else "%s %s" % (k, msg_line(m[0])))
+    outs, err = run_script(binary, "--history", lines)
+    if outs is None or len(outs) != len(lines):
+        ctx.broken("correspondence", "the Rust harness failed on the timed histories: %s" % err)
+        return []
+    terms = []
+    i = 0
+    for kind, h in hs:
+        i += 1                                   # R
+        evs, obs, tags = [], [], []
+        answers = []
+        for (t, k, m, want) in h:
+            i += 1                               # T
+            o = outs[i]
+            i += 1
+            tags.append(o["tag"] or None)
+            answers.append((k, want, o["aux"], t))
+            if k == "S":
+                evs.append("(%s, ESweep)" % gN(t))
+            else:
+                evs.append("(%s, %s %s)" % (gN(t), EV[k], g_msg(m[0], classify(m[0]))))
+            tab = []
+            for key, e in o["map"]:
+                idx = next((j for j, tg in enumerate(tags) if tg == key), 99999)
+                tab.append("(%s, %s)" % (gN(idx), gN(int(e))))
+            obs.append("(%s, %s)" % (gN(o["aux"] + 1), glist(tab)))
+        terms.append("(CHistory %s %s)" % (glist(evs), glist(obs)))
+        ctx.count(("history", kind, repr(h)[:4000]), kind="history/" + kind)
+        if kind == "lifetime":
+            # direct oracle: tracked at every instant before the station's lifetime ends, gone at the first sweep after it
+            for (k, want, aux, t) in answers:
+                if k == "Q" and want is not None and bool(aux == 1) != want:
+                    n = h[0][2][0]
+                    ctx.fail("lifetime:%s" % ("dropped-while-station-accepts" if want else "forwarded-after-lifetime-and-sweep"),
+                             "real SessionTracker: session of a registration announced New at t0 (and Update later) is %s at t0%+d ns "
+                             "(station lifetimes 10 min / 6 h)" % ("not tracked" if want else "still tracked after a sweep", t - h[0][0]),
+                             {"new_message": n, "history": [(tt, kk, None if mm is None else mm[0]) for (tt, kk, mm, _) in h]})
+                    break
+    return terms
+
+
+def gen_pubsub(ctx, pool):
+    rng = ctx.rng
+    scripts = []
+    for _ in range(6 if ctx.tier == "quick" else 60):
+        t = NOW
+        sc = []
+        for _ in range(rng.randrange(5, 40)):
+            t += rng.choice([0, 1, 10 ** 9, 60 * 10 ** 9, UNUSED_NS])
+            k = rng.choice("MMMMMMEYB")
+            sc.append((t, k, rng.choice(pool) if k == "M" else None))
+        scripts.append(sc)
+    return scripts
+
+
+def run_pubsub(ctx, binary, scripts, classify, channel):
+    terms = []
+    for sc in scripts:
+        lines = []
+        for (t, k, m) in sc:
+            lines.append("T %d" % t)
+            lines.append(k if m is None else "M %s" % msg_line(m[0]))
+        outs, err = run_script(binary, "--pubsub", lines)
+        if not outs:
+            ctx.broken("correspondence", "the real ingest_from_pubsub did not run over the scripted connection: %s" % err)
+            return terms
+        o = outs[-1]
+        if o["subscribed"] != [channel]:
+            ctx.fail("channel:mismatch", "the station publishes on %r, the detector subscribes to %r" % (channel, o["subscribed"]), o["subscribed"])
+        evs, tags = [], []
+        for (t, k, m) in sc:
+            if k == "M":
+                d = classify(m[0])
+                tags.append(d["conv"].get("tag") if d["conv"]["ok"] else None)
+                evs.append("(%s, PMsg %s)" % (gN(t), g_msg(m[0], d)))
+            else:
+                tags.append(None)
+                evs.append("(%s, %s)" % (gN(t), {"E": "PRecvErr", "Y": "PPayloadErr", "B": "PDecodeErr"}[k]))
+        tab = []
+        for key, e in o["map"]:
+            idx = next((j for j, tg in enumerate(tags) if tg == key), 99999)
+            tab.append("(%s, %s)" % (gN(idx), gN(int(e))))
+        terms.append("(CPubsub %s %s)" % (glist(evs), glist(tab)))
+        ctx.count(("pubsub", repr(sc)[:3000]), kind="pubsub")
+    return terms
+
+
 def run(ctx):
     ctx.assumptions += [
         "text classes: an IP-literal parser reads net.IP.String's output for 4-/16-byte values back as the same address "
@@ -655,6 +812,31 @@ def _run(ctx, binary):
         cv = d["conv"]
         eff = "cleared" if all(len(x) == 0 for x in d["maps"]) else ("added" if cv["ok"] and len(d["maps"][0]) == 2 else "nothing")
         ctx.count(("detect", json.dumps(m, sort_keys=True)), kind="detect/%s/%s" % ("ok" if cv["ok"] else cv["err"], eff))
+    # the table over time: real SessionTracker (drop_stale_sessions, update_session, add_session, is_tracked_session)
+    # and the real ingest_from_pubsub loop, on the messages the station really published
+    det_by_line = {msg_line(m): d for m, d in zip(allmsgs, dets)}
+
+    def classify(m):
+        return det_by_line[msg_line(m)]
+    pool = [(m, d) for m, d in zip(allmsgs, dets)]
+    good = [(m, d) for (m, d) in pool if d["conv"]["ok"] and m["op"] in (1, 2)]
+    pairs = []
+    for ci, (c, r) in enumerate(zip(cases, res)):
+        ms = r.get("msgs") or []
+        if c["kind"] in ("announce", "ingest"):
+            for k in range(0, len(ms) - 1, 2):
+                d0, d1 = det_of[(ci, k)], det_of[(ci, k + 1)]
+                if d0["conv"]["ok"] and d1["conv"]["ok"] and ms[k]["op"] == 1 and ms[k + 1]["op"] == 2:
+                    pairs.append(((ms[k], d0), (ms[k + 1], d1)))
+    ctx.rng.shuffle(pairs)
+    if good and pairs:
+        hpool = good * 3 + pool[:200]
+        for t_ in run_histories(ctx, binary, gen_histories(ctx, hpool, pairs), classify):
+            terms.append(t_)
+            origin.append((None, "history"))
+        for t_ in run_pubsub(ctx, binary, gen_pubsub(ctx, hpool), classify, (meta or {}).get("channel", "dark_decoy_map")):
+            terms.append(t_)
+            origin.append((None, "pubsub"))
     ctx.sample({"case": cases[5], "result": res[5]})
     ing = [i for i, c in enumerate(cases) if c["kind"] == "ingest" and (res[i].get("regs") or [])]
     if ing:
@@ -664,7 +846,7 @@ def _run(ctx, binary):
     ctx.require_kinds(["meta", "send/accepted", "send/InvalidPhantom", "send/InvalidClient", "send/MixedV4V6Error",
                        "send/UnrecognizedProto", "announce/accepted", "clear/acted-on", "ingest/0-regs", "ingest/1-regs",
                        "ingest/2-regs", "ingest-announce/ok", "newreg/ok", "newreg/rejected", "detect/ok/added", "detect/InvalidPhantom/nothing",
-                       "detect/InvalidClient/nothing", "detect/MixedV4V6Error/nothing", "detect/UnrecognizedProto/cleared"]
+                       "detect/InvalidClient/nothing", "detect/MixedV4V6Error/nothing", "detect/UnrecognizedProto/cleared", "history/lifetime", "history/random", "pubsub"]
                       if not ctx.known else ["meta", "send/accepted", "ingest/2-regs", "detect/ok/added"])
     if ctx.failures or ctx.brokens:
         # outcome classes are only meaningful as a generator self-test when nothing else is wrong
